@@ -144,6 +144,18 @@ fn stats_pair(s: Option<&Stats>) -> (Option<u64>, Option<u64>) {
 /// Search `content` (as file "f") with `m` and print in `mode`; `stats`
 /// mirrors --stats.
 pub fn run_mode(content: &[u8], m: &RegexMatcher, f: &PFlags, mode: &Mode, stats: bool) -> RunOut {
+    // a panic of the subject is an observation ("no result, crashed"), not a
+    // failure of the harness
+    match std::panic::catch_unwind(std::panic::AssertUnwindSafe(|| run_mode_inner(content, m, f, mode, stats))) {
+        Ok(r) => r,
+        Err(e) => {
+            let msg = e.downcast_ref::<String>().cloned().or_else(|| e.downcast_ref::<&str>().map(|s| s.to_string())).unwrap_or_else(|| "panic".into());
+            RunOut { out: vec![], has_match: false, matches: None, matched_lines: None, error: Some(format!("PANIC: {}", msg)) }
+        }
+    }
+}
+
+fn run_mode_inner(content: &[u8], m: &RegexMatcher, f: &PFlags, mode: &Mode, stats: bool) -> RunOut {
     match mode {
         Mode::Standard(o) => {
             let mut b = StandardBuilder::new();
